@@ -19,7 +19,45 @@ fn case(shapes: &[Model], seed: u64, idx: u64) -> Model {
     gen::gen_model(&mut r, &cfg)
 }
 
+pub const CARRIERS: [&str; 5] = ["to_string/from_str", "to_vec/from_slice", "to_writer/from_reader", "to_value/from_value", "to_string_pretty/from_str"];
+
+/// one JSON round trip through the given serde_json entry points (borrowing and non-borrowing deserialisers, text and tree forms)
+fn rt<T: serde::Serialize + serde::de::DeserializeOwned>(v: &T, carrier: usize) -> Result<(T, String), String> {
+    let ser = |e: serde_json::Error| format!("serialise: {e} [{}]", CARRIERS[carrier]);
+    match carrier {
+        0 | 4 => {
+            let s = if carrier == 0 { serde_json::to_string(v) } else { serde_json::to_string_pretty(v) }.map_err(ser)?;
+            let back = serde_json::from_str(&s).map_err(|e| format!("deserialise: {e} [{}]; json head: {}", CARRIERS[carrier], s.chars().take(300).collect::<String>()))?;
+            Ok((back, s))
+        }
+        1 => {
+            let b = serde_json::to_vec(v).map_err(ser)?;
+            let back = serde_json::from_slice(&b).map_err(|e| format!("deserialise: {e} [{}]", CARRIERS[carrier]))?;
+            Ok((back, String::from_utf8_lossy(&b).into_owned()))
+        }
+        2 => {
+            let mut b = vec![];
+            serde_json::to_writer(&mut b, v).map_err(ser)?;
+            let back = serde_json::from_reader(std::io::Cursor::new(&b)).map_err(|e| format!("deserialise: {e} [{}]; json head: {}", CARRIERS[carrier], String::from_utf8_lossy(&b).chars().take(300).collect::<String>()))?;
+            Ok((back, String::from_utf8_lossy(&b).into_owned()))
+        }
+        _ => {
+            let val = serde_json::to_value(v).map_err(ser)?;
+            let s = val.to_string();
+            let back = serde_json::from_value(val).map_err(|e| format!("deserialise: {e} [{}]; json head: {}", CARRIERS[carrier], s.chars().take(300).collect::<String>()))?;
+            Ok((back, s))
+        }
+    }
+}
+
 fn one(rep: &mut Report, m: &Model, seed: u64, idx: u64) {
+    for carrier in 0..CARRIERS.len() {
+        one_carrier(rep, m, seed, idx, carrier);
+    }
+}
+
+fn one_carrier(rep: &mut Report, m: &Model, seed: u64, idx: u64, carrier: usize) {
+    rep.seen("carriers", CARRIERS[carrier]);
     let replay = vec!["c20".to_string(), "--seed".into(), seed.to_string(), "--only".into(), idx.to_string()];
     let mut expected = m.clone();
     expected.data.clear();
@@ -31,8 +69,7 @@ fn one(rep: &mut Report, m: &Model, seed: u64, idx: u64) {
         if !m.data.is_empty() {
             *req.payload_mut() = IppPayload::new(std::io::Cursor::new(m.data.clone()));
         }
-        let s = serde_json::to_string(&req).map_err(|e| format!("serialise: {e}"))?;
-        let mut back: IppRequestResponse = serde_json::from_str(&s).map_err(|e| format!("deserialise: {e}; json head: {}", &s.chars().take(300).collect::<String>()))?;
+        let (mut back, s): (IppRequestResponse, String) = rt(&req, carrier)?;
         let got = mirror::from_ipp_head(back.header(), back.attributes());
         let mut rest = vec![];
         back.payload_mut().read_to_end(&mut rest).map_err(|e| format!("payload read: {e}"))?;
@@ -43,8 +80,8 @@ fn one(rep: &mut Report, m: &Model, seed: u64, idx: u64) {
         Ok(Err(e)) => rep.violation(format!("C20:{}", e.split(':').next().unwrap_or("error")), format!("case {idx}: {e}"), replay.clone()),
         Ok(Ok((got, rest, s))) => {
             if let Some(d) = mirror::diff(&expected, &got) {
-                rep.violation("C20:message-differs", format!("case {idx}: before vs after the JSON round trip: {d}; json head: {}", s.chars().take(400).collect::<String>()), replay.clone());
-            } else if t.nontrivial() {
+                rep.violation("C20:message-differs", format!("case {idx} [{}]: before vs after the JSON round trip: {d}; json head: {}", CARRIERS[carrier], s.chars().take(400).collect::<String>()), replay.clone());
+            } else if t.nontrivial() && carrier == 0 {
                 rep.nontrivial(hash64(s.as_bytes()));
             }
             if rest != 0 {
@@ -59,8 +96,7 @@ fn one(rep: &mut Report, m: &Model, seed: u64, idx: u64) {
     rep.eval();
     let r = catch(|| {
         let req = mirror::to_ipp(m);
-        let s = serde_json::to_string(req.attributes()).map_err(|e| format!("serialise: {e}"))?;
-        let back: IppAttributes = serde_json::from_str(&s).map_err(|e| format!("deserialise: {e}"))?;
+        let (back, _): (IppAttributes, String) = rt(req.attributes(), carrier)?;
         Ok::<_, String>(mirror::from_ipp_attrs(&back))
     });
     match r {
@@ -79,8 +115,7 @@ fn one(rep: &mut Report, m: &Model, seed: u64, idx: u64) {
             gen::visit_kinds(v, &mut |kk| rep.seen("kinds", ippref::KIND_NAMES[kk]));
             let iv = mirror::to_ipp_value(v);
             let r = catch(|| {
-                let s = serde_json::to_string(&iv).map_err(|e| format!("serialise: {e}"))?;
-                let back: IppValue = serde_json::from_str(&s).map_err(|e| format!("deserialise: {e}"))?;
+                let (back, _): (IppValue, String) = rt(&iv, carrier)?;
                 Ok::<_, String>(back == iv)
             });
             match r {
@@ -124,7 +159,7 @@ fn main() {
     for r in parts {
         rep.merge(r);
     }
-    rep.rule = "G1 messages (C01's shapes, then seeded random; all 22 kinds, raw-octet values, nested collections, boundary lengths) built with the serde feature on: serde_json::to_string(IppRequestResponse with a non-empty payload attached) -> from_str -> mirror equality of header, groups, names, values; payload afterwards reads 0 bytes; additionally IppAttributes alone and every attribute's IppValue alone (PartialEq after the round trip). evaluations = round trips; non-trivial as in C01, distinct by JSON text.".into();
+    rep.rule = "G1 messages (C01's shapes, then seeded random; all 22 kinds, raw-octet values, nested collections, boundary lengths) built with the serde feature on: serde_json round trip of IppRequestResponse (non-empty payload attached) through five carriers - to_string/from_str, to_vec/from_slice, to_writer/from_reader (non-borrowing), to_value/from_value (tree), to_string_pretty/from_str - -> mirror equality of header, groups, names, values; payload afterwards reads 0 bytes; additionally IppAttributes alone and every attribute's IppValue alone (PartialEq after the round trip). evaluations = round trips; non-trivial as in C01, distinct by JSON text.".into();
     rep.assumptions.push("carrier limit: messages nested deeper than 20 collection levels are skipped (serde_json's recursion limit of 128 JSON levels is a property of the carrier, not of the library)".into());
     if only.is_none() {
         let kinds = rep.sets.get("kinds").map(|s| s.len()).unwrap_or(0);
